@@ -57,4 +57,9 @@ theorem running_rejoin_or_fatal (e : GErr) : (rejoinRow false e).act = .rejoin â
 theorem escape_not_fatal (st : Bool) (e : GErr) (h : escapeRejoins e = true) : (rejoinRow st e).act â‰  .fatal := by
   cases st <;> cases e <;> simp_all [escapeRejoins] <;> decide
 
+/-- an eviction that makes the coordinator forget the member resets the member id -/
+theorem forgets_clears (st : Bool) (e : GErr) (h : Afkak.Monitor.C17.forgetsMember e = true) :
+    (rejoinRow st e).clearMember = true âˆ§ (rejoinRow st e).act â‰  .ignore := by
+  cases st <;> cases e <;> simp_all [Afkak.Monitor.C17.forgetsMember] <;> decide
+
 end Afkak.Group.Tables
